@@ -598,18 +598,6 @@ impl JsObject {
 
     /// Converts an object to a primitive.
     ///
-    /// Diverges from the spec to prevent a stack overflow when the object is recursive.
-    /// For example,
-    /// ```javascript
-    /// let a = [1];
-    /// a[1] = a;
-    /// console.log(a.toString()); // We print "1,"
-    /// ```
-    /// The spec doesn't mention what to do in this situation, but a naive implementation
-    /// would overflow the stack recursively calling `toString()`. We follow v8 and SpiderMonkey
-    /// instead by returning a default value for the given `hint` -- either `0.` or `""`.
-    /// Example in v8: <https://repl.it/repls/IvoryCircularCertification#index.js>
-    ///
     /// More information:
     ///  - [ECMAScript][spec]
     ///
@@ -623,20 +611,6 @@ impl JsObject {
         //      Already is JsObject by type.
         // 2. Assert: Type(hint) is String and its value is either "string" or "number".
         debug_assert!(hint == PreferredType::String || hint == PreferredType::Number);
-
-        // Diverge from the spec here to make sure we aren't going to overflow the stack by converting
-        // a recursive structure
-        // We can follow v8 & SpiderMonkey's lead and return a default value for the hint in this situation
-        // (see https://repl.it/repls/IvoryCircularCertification#index.js)
-        let recursion_limiter = RecursionLimiter::new(self.as_ref());
-        if recursion_limiter.live {
-            // we're in a recursive object, bail
-            return Ok(match hint {
-                PreferredType::Number => JsValue::new(0),
-                PreferredType::String => JsValue::new(js_string!()),
-                PreferredType::Default => unreachable!("checked type hint in step 2"),
-            });
-        }
 
         // 3. If hint is "string", then
         //    a. Let methodNames be « "toString", "valueOf" ».
